@@ -321,54 +321,220 @@ Fixpoint first_values (h : mdict) : option sdict :=
 
 Definition dict_get (k : str) (h : mdict) : list str := match assoc_get k h with Some vs => vs | None => [] end.
 
+(* ---------------------------------------------------------------- cookies
+   http.cookies.SimpleCookie + cassettes.py:473-484 _cookie_to_har: one harfile.Cookie per morsel.
+   An attribute that is empty is written as None (data[path] or None), hence plain strings / booleans. *)
+Record cookie := {
+  ck_name : str; ck_value : str; ck_path : str; ck_domain : str; ck_expires : str;
+  ck_httponly : bool; ck_secure : bool
+}.
+
+Definition SEMI : N := 59%N.
+Definition EQS : N := 61%N.
+Definition s_path : str := [112;97;116;104]%N.
+Definition s_domain : str := [100;111;109;97;105;110]%N.
+Definition s_expires : str := [101;120;112;105;114;101;115]%N.
+Definition s_httponly : str := [104;116;116;112;111;110;108;121]%N.
+Definition s_secure : str := [115;101;99;117;114;101]%N.
+(* Morsel._reserved / Morsel._flags *)
+Definition cookie_reserved : list str :=
+  [s_expires; s_path; [99;111;109;109;101;110;116]%N (* comment *); s_domain; [109;97;120;45;97;103;101]%N (* max-age *); s_secure; s_httponly;
+   [118;101;114;115;105;111;110]%N (* version *); [115;97;109;101;115;105;116;101]%N (* samesite *)].
+Definition cookie_flags : list str := [s_httponly; s_secure].
+
+Definition new_cookie (n v : str) : cookie :=
+  {| ck_name := n; ck_value := v; ck_path := []; ck_domain := []; ck_expires := []; ck_httponly := false; ck_secure := false |}.
+Definition with_value (v : str) (c : cookie) : cookie :=
+  {| ck_name := ck_name c; ck_value := v; ck_path := ck_path c; ck_domain := ck_domain c; ck_expires := ck_expires c;
+     ck_httponly := ck_httponly c; ck_secure := ck_secure c |}.
+
+(* M[key] = value for a lower-cased reserved key; only the five attributes harfile.Cookie receives are kept.
+   flag = the attribute came without a value (True); a valued httponly / secure is truthy when non-empty *)
+Definition set_attr (k v : str) (flag : bool) (c : cookie) : cookie :=
+  let t := flag || match v with [] => false | _ => true end in
+  {| ck_name := ck_name c; ck_value := ck_value c;
+     ck_path := if str_eqb k s_path then v else ck_path c;
+     ck_domain := if str_eqb k s_domain then v else ck_domain c;
+     ck_expires := if str_eqb k s_expires then v else ck_expires c;
+     ck_httponly := if str_eqb k s_httponly then t else ck_httponly c;
+     ck_secure := if str_eqb k s_secure then t else ck_secure c |}.
+
+(* BaseCookie.__set: an existing morsel keeps its place and its attributes, only the value changes *)
+Fixpoint set_value (n v : str) (acc : list cookie) : list cookie :=
+  match acc with
+  | [] => [new_cookie n v]
+  | c :: r => if str_eqb (ck_name c) n then with_value v c :: r else c :: set_value n v r
+  end.
+
+Definition update_named (n : str) (f : cookie -> cookie) (acc : list cookie) : list cookie :=
+  map (fun c => if str_eqb (ck_name c) n then f c else c) acc.
+
+(* partition at the first occurrence of a character *)
+Fixpoint cut_at (ch : N) (s : str) : option (str * str) :=
+  match s with
+  | [] => None
+  | x :: r => if N.eqb x ch then Some ([], r)
+              else match cut_at ch r with Some (a, b) => Some (x :: a, b) | None => None end
+  end.
+
+(* BaseCookie.__parse_string on the fragment  item (; item)*  with item = name=value | attr=value | flag,
+   names and values without whitespace, quotes, commas or a leading dollar sign (the Expires date excepted).
+   None = invalid cookie string (nothing is loaded); an empty item ends the scan (the pattern stops matching).
+   cur = name of the current morsel M. *)
+Fixpoint parse_items (items : list str) (cur : option str) (acc : list cookie) : option (list cookie) :=
+  match items with
+  | [] => Some acc
+  | it :: rest =>
+      match strip [SP] it with
+      | [] => Some acc
+      | s =>
+          match cut_at EQS s with
+          | None =>
+              match cur with
+              | Some n => if mem_str (lower_ascii s) cookie_flags
+                          then parse_items rest cur (update_named n (set_attr (lower_ascii s) [] true) acc)
+                          else None
+              | None => None
+              end
+          | Some (k0, v0) =>
+              let k := strip [SP] k0 in
+              let v := strip [SP] v0 in
+              match k with
+              | [] => None
+              | _ =>
+                  if mem_str (lower_ascii k) cookie_reserved
+                  then match cur with
+                       | Some n => parse_items rest cur (update_named n (set_attr (lower_ascii k) v false) acc)
+                       | None => None
+                       end
+                  else parse_items rest (Some k) (set_value k v acc)
+              end
+          end
+      end
+  end.
+
+(* list(SimpleCookie(text).items()) turned into HAR cookies *)
+Definition simple_cookie (text : str) : list cookie :=
+  match parse_items (split_on SEMI text) None [] with Some l => l | None => [] end.
+
+(* cassettes.py:469-470 _extract_cookies AS IT IS: the argument is the list of values of one header;
+   the comprehension  for items in headers for item in items  walks the CHARACTERS of every value and
+   hands each single character to the cookie parser.  parse = the foreign cookie parser. *)
+Definition har_cookies (parse : str -> list cookie) (values : list str) : list cookie :=
+  flat_map (fun v => flat_map (fun ch => parse [ch]) v) values.
+
+Definition s_ContentType : str := [67;111;110;116;101;110;116;45;84;121;112;101]%N.
+Definition s_set_cookie_lc : str := [115;101;116;45;99;111;111;107;105;101]%N.
+
+(* headers.get(Content-Type, [empty])[0] *)
+Definition mime_of (h : mdict) : str := hd [] (dict_get s_ContentType h).
+
+Record har_resp_t := {
+  hr_headers : sdict; hr_cookies : list cookie; hr_redirect : str;
+  hr_mime : str                 (* content.mimeType *)
+}.
+
 Record har_entry_t := {
   h_url : url; h_query : sdict;
-  h_req_headers : sdict; h_req_cookie_src : list str;
-  h_resp : option (sdict * list str * list str);
+  h_req_headers : sdict; h_req_cookies : list cookie;
+  h_post_mime : option str;     (* postData.mimeType, present when the request has a body *)
+  h_resp : option har_resp_t;
   h_open : str
 }.
 
 Definition LBR : N := 91%N.
 Definition RBR : N := 93%N.
 
-(* cassettes.py:353-436 (after repo fix 8fd7266e): everything credential-bearing is read from the
-   sanitised copies, i.e. the HAR entry is a function of what the VCR entry shows.  The query string is
-   cut out of the URI text (partition on # then on ?, cassettes.py:363-364) and read with parse_qsl:
-   on the parsed view that is u_query of the (sanitised) URI (a marker containing ? or # is outside
-   the model).  None = the writer raises IndexError on a header without values. *)
-Definition har_body (uri : url) (rq : mdict) (rs : option mdict) (op : str) : option har_entry_t :=
+(* cassettes.py:363-446 (after repo fix 8fd7266e): URL, query string, header records, cookies and the redirect
+   URL are read from the sanitised copies, i.e. they are a function of what the VCR entry shows.  The query
+   string is cut out of the URI text (partition on # then on ?, :374) and read with parse_qsl: on the parsed
+   view that is u_query of the (sanitised) URI (a marker containing ? or # is outside the model).
+   The two mimeType fields (:377, :385) are read from the RECORDED headers, whatever the sanitize flag:
+   raw_rq / raw_rs.  has_body: interaction.request.body is not None (part of i_open for the other channels).
+   None = the writer raises IndexError on a header without values. *)
+Definition har_body (parse : str -> list cookie) (uri : url) (rq : mdict) (rs : option mdict) (op : str)
+                    (has_body : bool) (raw_rq : mdict) (raw_rs : option mdict) : option har_entry_t :=
     match first_values rq with
     | None => None
     | Some rqf =>
+        let post := if has_body then Some (mime_of raw_rq) else None in
         match rs with
         | None => Some {| h_url := uri; h_query := u_query uri; h_req_headers := rqf;
-                          h_req_cookie_src := dict_get s_Cookie rq; h_resp := None; h_open := op |}
+                          h_req_cookies := har_cookies parse (dict_get s_Cookie rq);
+                          h_post_mime := post; h_resp := None; h_open := op |}
         | Some rsh =>
             match first_values rsh with
             | None => None
             | Some rsf => Some {| h_url := uri; h_query := u_query uri; h_req_headers := rqf;
-                                  h_req_cookie_src := dict_get s_Cookie rq;
-                                  h_resp := Some (rsf, dict_get s_SetCookie rsh, dict_get s_Location rsh);
+                                  h_req_cookies := har_cookies parse (dict_get s_Cookie rq);
+                                  h_post_mime := post;
+                                  h_resp := Some {| hr_headers := rsf;
+                                                    hr_cookies := har_cookies parse (dict_get s_SetCookie rsh);
+                                                    hr_redirect := hd [] (dict_get s_Location rsh);
+                                                    hr_mime := match raw_rs with Some h => mime_of h | None => [] end |};
                                   h_open := op |}
             end
         end
     end.
 
-Definition har_of (e : url * mdict * option mdict * str) : option har_entry_t :=
-  match e with (uri, rq, rs, op) => har_body uri rq rs op end.
+Definition har_of (parse : str -> list cookie) (e : url * mdict * option mdict * str)
+                  (has_body : bool) (raw_rq : mdict) (raw_rs : option mdict) : option har_entry_t :=
+  match e with (uri, rq, rs, op) => har_body parse uri rq rs op has_body raw_rq raw_rs end.
 
-Definition har_entry (san : bool) (c : config) (i : interaction) : option har_entry_t := har_of (vcr_entry san c i).
+Definition har_entry (parse : str -> list cookie) (san : bool) (c : config) (has_body : bool) (i : interaction)
+  : option har_entry_t :=
+  har_of parse (vcr_entry san c i) has_body (i_req_headers i) (i_resp_headers i).
+
+(* region of the HAR noninterference theorem: the Content-Type header is not itself sensitive under the
+   configuration (it is not under the default one) *)
+Definition content_type_public (c : config) : bool := negb (is_sensitive c s_ContentType).
 
 (* SENTINEL, not the current code: har_writer before repo fix 8fd7266e took the query with
    urlparse(uri), which raises ValueError when the netloc has a square bracket that is not an IP
    literal - which is what the default marker [Filtered]@host is.  Kept to state what the fix changed. *)
-Definition har_of_before_8fd7266e (e : url * mdict * option mdict * str) : option har_entry_t :=
+Definition har_of_before_8fd7266e (parse : str -> list cookie) (e : url * mdict * option mdict * str)
+                  (has_body : bool) (raw_rq : mdict) (raw_rs : option mdict) : option har_entry_t :=
   match e with
   | (uri, rq, rs, op) =>
-      if mem LBR (u_netloc uri) || mem RBR (u_netloc uri) then None else har_body uri rq rs op
+      if mem LBR (u_netloc uri) || mem RBR (u_netloc uri) then None else har_body parse uri rq rs op has_body raw_rq raw_rs
   end.
-Definition har_entry_before_8fd7266e (san : bool) (c : config) (i : interaction) : option har_entry_t :=
-  har_of_before_8fd7266e (vcr_entry san c i).
+Definition har_entry_before_8fd7266e (parse : str -> list cookie) (san : bool) (c : config) (has_body : bool) (i : interaction)
+  : option har_entry_t :=
+  har_of_before_8fd7266e parse (vcr_entry san c i) has_body (i_req_headers i) (i_resp_headers i).
+
+(* SENTINEL, not the current code: a HAR writer that fills the cookies arrays from the RECORDED (unsanitised)
+   Cookie / set-cookie header values - whole values, not characters - and redacts each cookie by its own NAME,
+   the convention prepare_request uses for case.cookies.  Kept to state that this variant leaks. *)
+Definition redact_cookies (san : bool) (c : config) (cs : list cookie) : list cookie :=
+  if san then map (fun ck => if is_sensitive c (ck_name ck) then with_value (repl c) ck else ck) cs else cs.
+Definition raw_cookies (parse : str -> list cookie) (san : bool) (c : config) (values : list str) : list cookie :=
+  redact_cookies san c (flat_map parse values).
+Definition har_entry_raw_cookies (parse : str -> list cookie) (san : bool) (c : config) (has_body : bool) (i : interaction)
+  : option har_entry_t :=
+  match har_entry parse san c has_body i with
+  | None => None
+  | Some e =>
+      Some {| h_url := h_url e; h_query := h_query e; h_req_headers := h_req_headers e;
+              h_req_cookies := raw_cookies parse san c (dict_get s_Cookie (i_req_headers i));
+              h_post_mime := h_post_mime e;
+              h_resp := match h_resp e, i_resp_headers i with
+                        | Some r, Some raw =>
+                            Some {| hr_headers := hr_headers r;
+                                    hr_cookies := raw_cookies parse san c (dict_get s_set_cookie_lc raw);
+                                    hr_redirect := hr_redirect r; hr_mime := hr_mime r |}
+                        | r, _ => r
+                        end;
+              h_open := h_open e |}
+  end.
+
+(* the cookies arrays of an entry: request.cookies, response.cookies *)
+Definition entry_cookies (e : har_entry_t) : list cookie * list cookie :=
+  (h_req_cookies e, match h_resp e with Some r => hr_cookies r | None => [] end).
+
+(* everything in an entry except the two mimeType fields *)
+Definition entry_sans_mime (e : har_entry_t) :=
+  (h_url e, h_query e, h_req_headers e, h_req_cookies e,
+   option_map (fun r => (hr_headers r, hr_cookies r, hr_redirect r)) (h_resp e), h_open e).
 
 (* every recorded header has at least one value (always so for real HTTP traffic) *)
 Definition values_nonempty (h : mdict) : bool := forallb (fun kv => match snd kv with [] => false | _ => true end) h.
